@@ -24,6 +24,62 @@ def regen(ctx):
     ctx.regen("Bee2V/Gen/C03Belt.lean", x_c03belt.generate())
 
 
+# ----------------------------------------------------------------------------- Python references (search oracle)
+M64 = (1 << 64) - 1
+
+
+def _rot(w, d):
+    return ((w << d) | (w >> (64 - d))) & M64
+
+
+def py_bashS(w0, w1, w2, m1, n1, m2, n2):
+    t0 = _rot(w0, m1)
+    w0 ^= w1 ^ w2
+    t1 = w1 ^ _rot(w0, n1)
+    w1 = t0 ^ t1
+    w2 ^= _rot(w2, m2) ^ _rot(t1, n2)
+    t0 = ~w2 & M64
+    t1 = w0 | w2
+    t2 = w0 & w1
+    t0 |= w1
+    return w0 ^ t0, w1 ^ t1, w2 ^ t2
+
+
+PERM = [15, 10, 9, 12, 11, 14, 13, 8, 17, 16, 19, 18, 21, 20, 23, 22, 6, 3, 0, 5, 2, 7, 4, 1]
+
+
+def py_bashF(block):
+    """bash-f written from the text of STB 34.101.77 (independent of the Lean model)"""
+    S = [int.from_bytes(block[8 * i:8 * i + 8], "little") for i in range(24)]
+    C = 0x3BF5080AC8BA94B1
+    for _ in range(24):
+        m1, n1, m2, n2 = 8, 53, 14, 1
+        for j in range(8):
+            S[j], S[8 + j], S[16 + j] = py_bashS(S[j], S[8 + j], S[16 + j], m1, n1, m2, n2)
+            m1, n1, m2, n2 = 7 * m1 % 64, 7 * n1 % 64, 7 * m2 % 64, 7 * n2 % 64
+        S = [S[PERM[x]] for x in range(24)]
+        S[23] ^= C
+        C = (C >> 1) ^ (0xDC2BE1997FE0D8AE if C & 1 else 0)
+    return b"".join(w.to_bytes(8, "little") for w in S)
+
+
+def py_bash_hash(l, data):
+    r = 192 - l // 2
+    S = bytearray(192)
+    S[184] = l // 4
+    x = bytes(data) + b"\x40"
+    x += bytes(-len(x) % r)
+    for i in range(0, len(x), r):
+        S[:r] = x[i:i + r]
+        S = bytearray(py_bashF(bytes(S)))
+    return bytes(S[:l // 4])
+
+
+def py_dt(digit, mac):
+    off = mac[-1] & 15
+    return "%0*d" % (digit, (int.from_bytes(mac[off:off + 4], "big") & 0x7FFFFFFF) % 10 ** digit)
+
+
 # ----------------------------------------------------------------------------- generators
 def rb(rng, n):
     return bytes(rng.getrandbits(8) for _ in range(n))
@@ -42,6 +98,212 @@ def gen_bashf(ctx):
     return ops
 
 
+def chunkings(rng, data, rate, k):
+    """k ways of cutting data, cuts biased to the block boundaries"""
+    out = []
+    n = len(data)
+    for _ in range(k):
+        cuts = set()
+        for _ in range(rng.randrange(1, 5)):
+            c = rng.choice([rate - 1, rate, rate + 1, 1, 0, n, n - 1, rng.randrange(n + 1), 2 * rate, rate // 2])
+            if 0 <= c <= n:
+                cuts.add(c)
+        cs = [0] + sorted(cuts) + [n]
+        out.append([data[a:b] for a, b in zip(cs, cs[1:])])   # may contain empty chunks (count = 0 calls)
+    return out
+
+
+def gen_hash(ctx):
+    rng, ops = ctx.rng, []
+    for l in range(16, 257, 16):
+        rate = 192 - l // 2
+        lens = [0, 1, rate - 1, rate, rate + 1, 2 * rate + 3]
+        if ctx.tier == "thorough":
+            lens += [2 * rate, 3 * rate - 1, rng.randrange(4 * rate)]
+        for n in lens:
+            d = rb(rng, n)
+            ops.append("hash %d %s" % (l, H(d)))
+            for ch in chunkings(rng, d, rate, 1 if ctx.tier == "quick" else 3):
+                ops.append("hash %d %s" % (l, " ".join(H(c) for c in ch)))
+    ops.append("hash 256")
+    return ops
+
+
+def prg_buflen(l, d, keyed):
+    return 192 - l * (2 + d) // 16 if keyed else 192 - d * l // 4
+
+
+def gen_prg_one(rng, l, d, keyed, ncmd):
+    ann = rb(rng, 4 * rng.randrange(0, 16))
+    key = rb(rng, 4 * rng.randrange(l // 32, 16)) if keyed else b""
+    bl = prg_buflen(l, d, keyed)
+    toks, last = [], None
+    for _ in range(ncmd):
+        def dlen():
+            return rng.choice([0, 1, bl - 1, bl, bl + 1, 2 * bl + 3, rng.randrange(3 * bl), rng.randrange(8)])
+        kinds = ["A", "S", "T", "R", "A", "S"] + (["E", "D", "E", "D"] if keyed else [])
+        if last in ("A", "S", "E", "D") and rng.random() < 0.35:
+            k = last.lower()                               # continue the same command with another Step
+        else:
+            k = rng.choice(kinds)
+        if k == "T":
+            toks.append("T"); last = None
+        elif k == "R":
+            a2 = rb(rng, 4 * rng.randrange(0, 16))
+            k2 = rb(rng, 4 * rng.randrange(l // 32, 16)) if rng.random() < 0.5 else b""
+            toks.append("R:%s:%s" % (H(a2), H(k2)))
+            if k2:
+                keyed = True
+                bl = prg_buflen(l, d, True)
+            last = None
+        elif k in ("S", "s"):
+            toks.append("%s:%d" % (k, dlen())); last = "S"
+        else:
+            toks.append("%s:%s" % (k, H(rb(rng, dlen())))); last = k.upper()
+    return "prg %d %d %s %s %s" % (l, d, H(ann), H(key), " ".join(toks))
+
+
+def gen_prg(ctx):
+    rng, ops = ctx.rng, []
+    per = 5 if ctx.tier == "quick" else 30
+    for l in (128, 192, 256):
+        for d in (1, 2):
+            for keyed in (False, True):
+                for _ in range(per):
+                    ops.append(gen_prg_one(rng, l, d, keyed, rng.randrange(1, 14)))
+                # boundary: announcement + key fill the start block as far as the header allows
+                ops.append("prg %d %d %s %s S:1 T A:00 S:%d" % (l, d, "aa" * 60, ("bb" * 60) if keyed else "-",
+                                                                  prg_buflen(l, d, keyed)))
+    ops += ["prg 128 3 - -", "prg 100 1 - -", "prg 128 1 0011 -", "prg 128 1 - 00112233", "prg 128 1 - - E:00", "prg 128 1 - - X:00"]
+    return ops
+
+
+def ctr_ivs(rng):
+    ivs = [b"\xff" * 32, b"\xff" * 31 + b"\xfe", b"\xfe" + b"\xff" * 31, bytes(32)]
+    for k in range(1, 8):                       # carry out of word k-1 (32-bit granularity covers 64-bit too)
+        ivs.append(b"\xff" * (4 * k) + bytes([rng.randrange(255)]) + rb(rng, 31 - 4 * k))
+        ivs.append(b"\xff" * (4 * k) + bytes(32 - 4 * k))
+    ivs.append(b"\xfd" + b"\xff" * 31)
+    ivs += [rb(rng, 32) for _ in range(3)]
+    return ivs
+
+
+def gen_ctr(ctx):
+    rng, ops = ctx.rng, []
+    for iv in ctr_ivs(rng):
+        ops.append("ctrinc " + H(iv + rb(rng, 32)))
+        ops.append("ctrinc " + H(iv + bytes(32)))
+        ops.append("ctrinc " + H(iv + b"\xff" * 32))
+    for iv in ctr_ivs(rng):
+        key = rb(rng, 32)
+        pat = rng.choice([[32, 32, 32], [96], [64, 1], [5, 40, 27, 32], [31, 1, 33], [0, 32, 0, 7, 7, 7, 43], [100, 3, 29]])
+        if rng.random() < 0.7:
+            bufs = [bytes(n) for n in pat]         # zero-filled buffers, as the header asks for plain generation
+        else:
+            bufs = [rb(rng, n) for n in pat]       # additional input X
+        ops.append("ctr %s %s %s" % (H(key), H(iv), " ".join(H(b) for b in bufs)))
+    ops += ["ctr 00 00", "ctrinc 00"]
+    return ops
+
+
+def gen_hmacgen(ctx):
+    rng, ops = ctx.rng, []
+    kls = [0, 1, 31, 32, 33, 64, 65]
+    ils = [0, 1, 32, 63, 64, 65, 100]
+    for kl in kls:
+        for il in (ils if ctx.tier == "thorough" else [rng.choice(ils), rng.choice([64, 65])]):
+            pat = rng.choice([[32, 32], [64], [5, 40, 27, 32], [31, 1, 33], [0, 7, 7, 50], [100]])
+            ops.append("hmacgen %s %s %s" % (H(rb(rng, kl)), H(rb(rng, il)), " ".join(map(str, pat))))
+    return ops
+
+
+SUITES_OK = ["OCRA-1:HOTP-HBELT-6:QN08", "OCRA-1:HOTP-HBELT-8:C-QN08-PHBELT", "OCRA-1:HOTP-HBELT-4:QA04-S000",
+             "OCRA-1:HOTP-HBELT-9:C-QH64-PSHA512-S512-T48H", "OCRA-1:HOTP-HBELT-7:QA10-T1M", "OCRA-1:HOTP-HBELT-5:QN08-T59S",
+             "OCRA-1:HOTP-HBELT-6:C-QN08-PSHA1-S064-T30S", "OCRA-1:HOTP-HBELT-6:QN12-PSHA256-T9M"]
+SUITES_BAD = ["OCRA-1:HOTP-SHA1-6:QN08", "OCRA-1:HOTP-HBELT-3:QN08", "OCRA-1:HOTP-HBELT-6:QN03", "OCRA-1:HOTP-HBELT-6:QN65",
+              "OCRA-1:HOTP-HBELT-6:QX08", "OCRA-1:HOTP-HBELT-6:C_QN08", "OCRA-1:HOTP-HBELT-6:QN08-S513", "OCRA-1:HOTP-HBELT-6:QN08-T60S",
+              "OCRA-1:HOTP-HBELT-6:QN08-T60M", "OCRA-1:HOTP-HBELT-6:QN08-T49H", "OCRA-1:HOTP-HBELT-6:QN08-T0M", "OCRA-1:HOTP-HBELT-6:QN08-T5X",
+              "OCRA-1:HOTP-HBELT-6:QN08-PMD5", "OCRA-1:HOTP-HBELT-6:QN08x", "OCRA-1:HOTP-HBELT-6:QN8", "OCRA-1:HOTP-HBELT-6:QN08-S06",
+              "OCRA-2:HOTP-HBELT-6:QN08", "OCRA-1:HOTP-HBELT-6", "OCRA-1:HOTP-HBELT-:QN08", "", "OCRA-1:HOTP-HBELT-6:QN08-T", "OCRA-1:HOTP-HBELT-6:Q"]
+
+
+def rand_suite(rng):
+    s = "OCRA-1:HOTP-HBELT-%d:" % rng.randrange(4, 10)
+    if rng.random() < 0.5:
+        s += "C-"
+    s += "Q" + rng.choice("ANH") + "%02d" % rng.choice([4, 5, 8, 10, 32, 63, 64])
+    if rng.random() < 0.5:
+        s += "-P" + rng.choice(["HBELT", "SHA1", "SHA256", "SHA512"])
+    if rng.random() < 0.5:
+        s += "-S%03d" % rng.choice([0, 1, 64, 100, 511, 512])
+    if rng.random() < 0.5:
+        s += "-T" + rng.choice(["1S", "59S", "1M", "59M", "1H", "48H", "30S", "5M"])
+    return s
+
+
+def ocra_op(rng, suite, qlen=None, n=2):
+    import re as _re
+    m = _re.search(r":(C-)?Q[ANH](\d\d)", suite)
+    qmax = int(m.group(2)) if m else 8
+    pm = _re.search(r"-P(HBELT|SHA1|SHA256|SHA512)", suite)
+    pl = {"HBELT": 32, "SHA1": 20, "SHA256": 32, "SHA512": 64}[pm.group(1)] if pm else 0
+    sm = _re.search(r"-S(\d\d\d)", suite)
+    sl = int(sm.group(1)) if sm else 0
+    if qlen is None:
+        qlen = rng.choice([4, 2 * qmax, rng.randrange(4, 2 * qmax + 1)])
+    ctr = rng.choice([b"\xff" * 8, bytes(7) + b"\xff", rb(rng, 8), b"\x00\xff" * 4])
+    t = rng.choice([0, 1, 2 ** 31, 2 ** 32 + 5, 2 ** 63, 2 ** 64 - 1, rng.getrandbits(40)])
+    return "ocra %s %s %s %s %s %s %d %d" % (H(suite.encode()), H(rb(rng, rng.choice([0, 16, 32, 33]))), H(rb(rng, qlen)),
+                                             H(ctr), H(rb(rng, pl)), H(rb(rng, sl if sl <= 512 else 0)), t, n)
+
+
+def gen_botp(ctx):
+    rng, ops = ctx.rng, []
+    for k in range(9):                                   # trailing run of k octets FF -> carry through k octets
+        ops.append("ctrnext " + H(rb(rng, 8 - k)[:-1] + bytes([rng.randrange(255)]) + b"\xff" * k if k < 8 else b"\xff" * 8))
+    ops += ["ctrnext " + H(rb(rng, 8)) for _ in range(4)]
+    for dg in range(4, 10):
+        for nib in ([rng.randrange(16) for _ in range(3)] if ctx.tier == "quick" else range(16)):
+            ln = rng.choice([20, 32, 64])
+            mac = bytearray(rb(rng, ln)); mac[-1] = (mac[-1] & 0xF0) | nib
+            if rng.random() < 0.3:
+                mac[nib:nib + 4] = rng.choice([b"\xff\xff\xff\xff", b"\x80\x00\x00\x00", b"\x7f\xff\xff\xff", bytes(4)])
+            ops.append("dt %d %s" % (dg, H(mac)))
+        for ctr in (b"\xff" * 8, bytes(6) + b"\xff\xff", rb(rng, 8)):
+            ops.append("hotp %d %s %s 3" % (dg, H(rb(rng, rng.choice([0, 16, 32, 33, 64, 65]))), H(ctr)))
+        for t in (0, 2 ** 64 - 1, 2 ** 32, rng.getrandbits(35)):
+            ops.append("totp %d %s %d" % (dg, H(rb(rng, rng.choice([16, 32, 40]))), t))
+    ops.append("hotpv 6 0011 0000000000000000 303030303030")
+    for su in SUITES_OK:
+        ops.append(ocra_op(rng, su))
+    for su in SUITES_BAD:
+        ops.append(ocra_op(rng, su, qlen=8))
+    for _ in range(10 if ctx.tier == "quick" else 60):
+        ops.append(ocra_op(rng, rand_suite(rng)))
+    ops.append(ocra_op(rng, SUITES_OK[0], qlen=3))
+    ops.append(ocra_op(rng, SUITES_OK[0], qlen=17))
+    for _ in range(6):                                    # one-character damage of a valid suite
+        su = list(rng.choice(SUITES_OK)); su[rng.randrange(len(su))] = rng.choice("0159ACHMNQST-:x")
+        ops.append(ocra_op(rng, "".join(su), qlen=8))
+    ops += ["hotp 3 00 0000000000000000 1", "hotp 10 00 0000000000000000 1", "dt 6 00", "totp 6 00 99999999999999999999"]
+    return ops
+
+
+def gen_belt(ctx):
+    rng, ops = ctx.rng, []
+    for _ in range(6):
+        ops.append("belt.encr %s %s" % (H(rb(rng, 16)), H(rb(rng, 32))))
+        ops.append("belt.compr %s %s" % (H(rb(rng, 32)), H(rb(rng, 32))))
+    for pat in ([0], [1], [31, 1], [32], [33, 31, 64], [100, 0, 28], [65, 65], [32, 32, 32, 32]):
+        ops.append("belt.hash " + " ".join(H(rb(rng, n)) for n in pat))
+    for kl in (0, 1, 31, 32, 33, 64, 65):
+        pat = rng.choice([[8], [32, 32], [5, 40, 27], [0, 64]])
+        ops.append("belt.hmac %s %s" % (H(rb(rng, kl)), " ".join(H(rb(rng, n)) for n in pat)))
+    for c in (0, 1, 2 ** 29 - 1, 2 ** 29, 2 ** 32, 2 ** 61, 2 ** 64 - 1):
+        ops.append("belt.addbits %s %d" % (H(rng.choice([bytes(16), b"\xff" * 16, rb(rng, 16), b"\xf8" + b"\xff" * 15])), c))
+    return ops
+
+
 def corpus_lines():
     p = os.path.join(vcommon.VERIF, "gen", "c03.corpus")
     if not os.path.exists(p):
@@ -50,10 +312,224 @@ def corpus_lines():
 
 
 # ----------------------------------------------------------------------------- search oracles
+def belt_hash(ctx, exe, data):
+    out, _, _ = ctx.run_lines(exe, ["belt.hash " + H(data)])
+    return bytes.fromhex(out[0])
+
+
+def belt_hmac(ctx, exe, key, data):
+    out, _, _ = ctx.run_lines(exe, ["belt.hmac %s %s" % (H(key), H(data))])
+    return bytes.fromhex(out[0])
+
+
+def unh(t):
+    return b"" if t == "-" else bytes.fromhex(t)
+
+
 def search(ctx, exe, op, c_out):
-    """Test the PROPERTY on the implementation alone around a differing op.
+    """Test the PROPERTY on the implementation alone (no Lean model involved) for the differing op.
     Returns (found, key, what)."""
-    return False, "correspondence:" + op.split()[0], "no independent oracle for this op kind"
+    w = op.split()
+    kind = w[0]
+    try:
+        if c_out.startswith("CRASH"):
+            return True, kind + ":sanitizer", "the implementation aborts on this input: " + c_out[:200]
+        if kind == "bashf":
+            ref = py_bashF(unh(w[1])).hex()
+            if ref != c_out:
+                return True, "bashf:value", "bashF differs from bash-f of STB 34.101.77 (Python reference): expected " + ref[:64] + "…"
+        elif kind == "hash":
+            l = int(w[1])
+            data, outs = b"", c_out.split()
+            for i, t in enumerate(w[2:]):
+                data += unh(t)
+                ref = py_bash_hash(l, data).hex()
+                if i < len(outs) and outs[i] != ref:
+                    return True, "hash:value", "bash hash l=%d of %d octets (fed in %d chunks) differs from the standard: expected %s" % (
+                        l, len(data), i + 1, ref)
+        elif kind == "prg":
+            return search_prg(ctx, exe, w, c_out)
+        elif kind == "ctrinc":
+            m = unh(w[1])
+            ref = ((int.from_bytes(m[:32], "little") + 1) % 2 ** 256).to_bytes(32, "little") + m[32:]
+            if ref.hex() != c_out:
+                what = "r (the octets after the block) changed" if c_out[64:] != ref.hex()[64:] else "s is not s+1 mod 2^256"
+                return True, "brngBlockInc:" + ("r-touched" if c_out[64:] != ref.hex()[64:] else "value"), \
+                    "brngBlockInc: %s; expected %s" % (what, ref.hex())
+        elif kind == "ctr":
+            key, iv = unh(w[1]), unh(w[2])
+            s, r = int.from_bytes(iv, "little"), bytes(b ^ 0xFF for b in iv)
+            outs, res, block = c_out.split(), 0, b""
+            for bi, t in enumerate(w[3:]):
+                buf, got, exp = unh(t), unh(outs[bi]), b""
+                if res:
+                    k = min(res, len(buf))
+                    exp += block[32 - res:32 - res + k]; res -= k; buf = buf[k:]
+                while buf:
+                    x = buf[:32]
+                    y = belt_hash(ctx, exe, key + s.to_bytes(32, "little") + x + bytes(32 - len(x)) + r)
+                    s = (s + 1) % 2 ** 256
+                    r = bytes(a ^ b for a, b in zip(r, y))
+                    exp += y[:len(x)]
+                    if len(x) < 32:
+                        block, res = y, 32 - len(x)
+                    buf = buf[32:]
+                if exp != got:
+                    return True, "brngCTR:output", "brngCTR request %d: output differs from Y_t = belt-hash(key || s || X_t || r) with s <- s+1 mod 2^256, r <- r xor Y_t (hash taken from the library itself): expected %s" % (bi, exp.hex())
+            if outs[-1] != s.to_bytes(32, "little").hex():
+                return True, "brngCTR:counter", "brngCTRStepG returns %s, expected iv + blocks mod 2^256 = %s" % (outs[-1], s.to_bytes(32, "little").hex())
+        elif kind == "hmacgen":
+            key, iv = unh(w[1]), unh(w[2])
+            r = belt_hmac(ctx, exe, key, iv)
+            outs, res, block = c_out.split(), 0, b""
+            for bi, t in enumerate(w[3:]):
+                n, exp = int(t), b""
+                if res:
+                    k = min(res, n)
+                    exp += block[32 - res:32 - res + k]; res -= k; n -= k
+                while n:
+                    y = belt_hmac(ctx, exe, key, r + iv)
+                    r = belt_hmac(ctx, exe, key, r)
+                    k = min(32, n)
+                    exp += y[:k]
+                    if k < 32:
+                        block, res = y, 32 - k
+                    n -= k
+                if exp != unh(outs[bi]):
+                    return True, "brngHMAC:output", "brngHMAC request %d differs from Y_t = hmac(key, r || iv), r <- hmac(key, r): expected %s" % (bi, exp.hex())
+        elif kind == "ctrnext":
+            ref = ((int.from_bytes(unh(w[1]), "big") + 1) % 2 ** 64).to_bytes(8, "big").hex()
+            if ref != c_out:
+                return True, "botpCtrNext:value", "botpCtrNext is not +1 mod 2^64 (big-endian): expected " + ref
+        elif kind == "dt":
+            ref = py_dt(int(w[1]), unh(w[2]))
+            if ref != c_out:
+                return True, "botpDT:value", "botpDT differs from dynamic truncation mod 10^digit: expected " + ref
+        elif kind == "hotp":
+            dg, key, ctr = int(w[1]), unh(w[2]), int.from_bytes(unh(w[3]), "big")
+            outs = c_out.split()
+            for i in range(int(w[4])):
+                ref = py_dt(dg, belt_hmac(ctx, exe, key, ctr.to_bytes(8, "big")))
+                if outs[i] != ref:
+                    return True, "botpHOTP:value", "HOTP password %d: expected %s" % (i, ref)
+                ctr = (ctr + 1) % 2 ** 64
+            if outs[-1] != ctr.to_bytes(8, "big").hex():
+                return True, "botpHOTP:counter", "HOTP counter after %s passwords: expected %s" % (w[4], ctr.to_bytes(8, "big").hex())
+        elif kind == "totp":
+            ref = py_dt(int(w[1]), belt_hmac(ctx, exe, unh(w[2]), int(w[3]).to_bytes(8, "big")))
+            if ref != c_out:
+                return True, "botpTOTP:value", "TOTP password: expected " + ref
+    except Exception as e:  # malformed outputs etc.: the oracle could not decide
+        return False, "correspondence:" + kind, "search oracle failed on this op: %s" % e
+    return False, "correspondence:" + kind, "implementation and model differ; the implementation-only test of the property passes on this input"
+
+
+def search_prg(ctx, exe, w, c_out):
+    """(1) decryption inverts encryption under the same history; (2) chunked Step calls = one-shot;
+    (3) squeeze output / state agree with a Python automaton written from the standard."""
+    head, cmds = w[:5], w[5:]
+    # (1) for every prefix ending right before an E: command
+    for i, t in enumerate(cmds):
+        if t.startswith("E:"):
+            pre = cmds[:i]
+            o1, _, _ = ctx.run_lines(exe, [" ".join(head + pre + [t])])
+            if o1[0] == "bad-op":
+                continue
+            n_out = sum(1 for c in pre if c[0] in "SsEeDd")
+            y = o1[0].split()[n_out]
+            o2, _, _ = ctx.run_lines(exe, [" ".join(head + pre + ["D:" + y])])
+            f1, f2 = o1[0].split(), o2[0].split()
+            if f2[n_out] != t[2:] :
+                return True, "prg:decr-encr", "after the history `%s` decrypt(encrypt(x)) != x for |x| = %d" % (
+                    " ".join(head + pre)[:200], len(unh(t[2:])))
+            if f1[-3:] != f2[-3:]:
+                return True, "prg:decr-encr-state", "encrypting and decrypting parties end in different states after `%s`" % " ".join(head + pre)[:200]
+    # (2) merge continuation steps into their start command
+    merged = []
+    for t in cmds:
+        if t[0] in "ased" and merged and merged[-1][0] == t[0].upper():
+            if t[0] == "s":
+                merged[-1] = "S:%d" % (int(merged[-1][2:]) + int(t[2:]))
+            else:
+                merged[-1] = merged[-1][0] + ":" + H(unh(merged[-1][2:]) + unh(t[2:]))
+        else:
+            merged.append(t)
+    if merged != cmds:
+        o, _, _ = ctx.run_lines(exe, [" ".join(head + merged)])
+        a, b = c_out.split(), o[0].split()
+        if "".join(x for x in a[:-3] if x != "-") != "".join(x for x in b[:-3] if x != "-") or a[-3:] != b[-3:]:
+            return True, "prg:chunking", "the same data fed by several Step calls gives another result than one call"
+    # (3) Python automaton
+    try:
+        ref = py_prg(w)
+    except Exception as e:
+        return False, "correspondence:prg", "python automaton failed: %s" % e
+    if ref != c_out:
+        return True, "prg:value", "automaton output/state differs from STB 34.101.77 (Python reference): expected %s…" % ref[:120]
+    return False, "correspondence:prg", "implementation-only tests pass (decr.encr, chunking, Python reference)"
+
+
+def py_prg(w):
+    l, d, ann, key = int(w[1]), int(w[2]), unh(w[3]), unh(w[4])
+    S = bytearray(192)
+    S[0] = (len(ann) * 4 + len(key) // 4) & 255
+    S[1:1 + len(ann)] = ann
+    S[1 + len(ann):1 + len(ann) + len(key)] = key
+    S[184] = l // 4 + d
+    pos = 1 + len(ann) + len(key)
+    r = prg_buflen(l, d, bool(key))
+    outs = []
+    st = {"S": S, "pos": pos, "r": r}
+
+    def commit(code):
+        st["S"][st["pos"]] ^= code
+        st["S"][st["r"]] ^= 0x80
+        st["S"] = bytearray(py_bashF(bytes(st["S"])))
+        st["pos"] = 0
+
+    def run(data, mode):
+        out = bytearray()
+        for b in data:
+            p = st["pos"]
+            if mode == "A":
+                st["S"][p] ^= b
+            elif mode == "S":
+                out.append(st["S"][p])
+            elif mode == "E":
+                st["S"][p] ^= b; out.append(st["S"][p])
+            else:
+                out.append(b ^ st["S"][p]); st["S"][p] = b
+            st["pos"] += 1
+            if st["pos"] == st["r"]:
+                st["S"] = bytearray(py_bashF(bytes(st["S"])))
+                st["pos"] = 0
+        return bytes(out)
+    for t in w[5:]:
+        c = t[0]
+        if c == "T":
+            T = bytes(st["S"]); commit(0x01)
+            st["S"] = bytearray(a ^ b for a, b in zip(st["S"], T))
+            continue
+        if c == "R":
+            _, a2, k2 = t.split(":")
+            a2, k2 = unh(a2), unh(k2)
+            if k2:
+                commit(0x05); st["r"] = prg_buflen(l, d, True)
+            else:
+                commit(0x01)
+            st["pos"] = 1 + len(a2) + len(k2)
+            st["S"][0] ^= (len(a2) * 4 + len(k2) // 4) & 255
+            for i, b in enumerate(a2 + k2):
+                st["S"][1 + i] ^= b
+            continue
+        if c in "ASED":
+            commit({"A": 0x09, "S": 0x11, "E": 0x0D, "D": 0x0D}[c])
+        m = c.upper()
+        data = bytes(int(t[2:])) if m == "S" else unh(t[2:])
+        o = run(data, m)
+        if m != "A":
+            outs.append(H(o))
+    return " ".join(outs + [str(st["pos"]), str(st["r"]), bytes(st["S"]).hex()])
 
 
 def fmt_replay(key, cfg, op, impl, model, what):
@@ -85,7 +561,7 @@ def run(ctx):
             cfgs.append("avx512")
         else:
             ctx.notes.append("cfg avx512 skipped: CPU has no avx512f")
-    ops = corpus_lines() + gen_bashf(ctx)
+    ops = corpus_lines() + gen_bashf(ctx) + gen_hash(ctx) + gen_prg(ctx) + gen_ctr(ctx) + gen_hmacgen(ctx) + gen_botp(ctx) + gen_belt(ctx)
     kinds = {}
     for o in ops:
         kinds[o.split()[0]] = kinds.get(o.split()[0], 0) + 1
